@@ -239,7 +239,10 @@ Definition prune (b : bn) (Q : list var) (evidence : list (var * nat)) : bn * li
                          match diff with [] => c | _ => cpd_marginalize diff c end |}, ev').
 
 (* ---- _virtual_evidence: for each (var, new node, likelihood vector v): edge var -> new, CPD of the
-        binary new node over [new; var] = vstack(v, 1 - v); later entries replace earlier ones --------- *)
+        binary new node over [new; var] = vstack(v, 1 - v).  The code picks a FRESH name for the child of every
+        entry ("__" + str(var), prefixed by "_" while that is a node of the copy: fix a6b57c2); the model is given a
+        fresh node id per entry by its caller (the theorems state this as: the ids are distinct and not nodes of
+        the network).  Two entries on one variable therefore both count. --------- *)
 (* A virtual evidence lists the states of its variable in [given] (indices into the model's own state list).
    The code puts that list on the parent axis of the new CPD; BayesianNetwork.check_model (run by
    Inference.__init__ on the augmented copy) then raises ValueError unless it IS the model's list.  So:
